@@ -16,6 +16,7 @@ import common as C  # noqa: E402
 
 ID = "C19"
 CHECKER = "chk_config"
+THEOREMS = ['C19_omitted_is_default', 'C19_omitted_is_default_cli', 'C19_fill_defaults_total', 'C19_given_keys_land', 'C19_absent_keys_default', 'C19_invalid_choice_rejected', 'C19_valid_accepted', 'C19_rgrid_spec', 'C19_rgrid_from_keys', 'C19_cli_args_land', 'C19_cli_plan_spec', 'C19_cli_filter_iff_cutoff', 'C19_cli_lorch_iff_flag', 'C19_cli_equals_library_partial', 'C19_cli_reads_differently_refuted', 'C19_cli_reads_differently_always', 'C19_cli_drops_first_data_row']
 RULE = ("StoG(**cfg) for subsets of the optional keys (thorough: every presence pattern of the 14 optional keys; quick: sampled) with valid, "
         "invalid (unknown function name, non-boolean flag) and boundary values; r grid compared element-wise with np.arange; pystog_cli run "
         "end to end in a scratch directory in JSON and flag form, its call sequence and its files compared with driving the library with "
